@@ -9,7 +9,7 @@ from props import rwcommon as rc
 ID = "C02"
 PROP_FILE = "props/C02.v"
 COQ_TARGETS = ["props/C02.v"]
-THEOREMS = ["C02_emit_observing", "C02_delivered_iff", "C02_delivery_order", "C02_value", "C02_site_value"]
+THEOREMS = ["C02_emit_observing", "C02_delivered_iff", "C02_delivery_order", "C02_value", "C02_site_value", "C02_frag_stream"]
 TRUSTED_BASE = [
     "Coq 8.16.1 kernel, vm_compute for the per-program site / erasure certificates",
     "tools/impl/ref_instr.py: the independent reference instrumenter (the event table of DESIGN section 11 as probes on the source AST); "
@@ -145,6 +145,11 @@ def run(ctx, model_ok):
                 bad.append({"case": {k: cases[i][k] for k in ("src", "tracers")}, "result": r})
         if bad:
             ctx.tie_broken("certificate", "site / erasure certificate fails on %d of %d rewritten programs" % (len(bad), len(rows)), json.dumps(bad[0])[-3000:])
+    # the fragment semantics (model/FragSem.v, theorem C02_frag_stream) against the real rewriter, CPython and the real runtime
+    ksem = (0, 0, {})
+    if model_ok:
+        from props import rwfrag
+        ksem = rwfrag.check_sem(ctx, rng, 30 if ctx.tier == "quick" else 300)
     return {
         "evaluations": len(cases),
         "distinct_nontrivial": len({lib.digest(c) for c, im in zip(cases, impl) if len(im.get("ref", [])) >= 5}),
@@ -153,7 +158,7 @@ def run(ctx, model_ok):
                 "non-trivial = >=5 occurrences; distinct by sha1" % len(pool),
         "samples": [{"events": cases[-1]["reference"][:8], "occurrences": len(impl[-1].get("ref", [])), "src_tail": cases[-1]["src"][-300:]}],
         "traces_validated": ok["sites"],
-        "distribution": {"occurrences_compared": occ, "occurrences_per_event_top": dict(sorted(per_event.items(), key=lambda x: -x[1])[:15]),
+        "distribution": {"k_sem_fragment_programs": ksem[0], "k_sem_agreeing": ksem[1], "occurrences_compared": occ, "occurrences_per_event_top": dict(sorted(per_event.items(), key=lambda x: -x[1])[:15]),
                          "events_never_occurring": [e for e in pool if e not in per_event],
                          "programs_raising": sum(1 for im in impl if im.get("ref_exc")),
                          "certificates_checked": len(rows), "certificates_ok": ok},
